@@ -211,6 +211,10 @@ def add_targets(E, spec, pid, classes=(GP, TPc)):
             p, t = args
             out = ctx.getf(t, "g_out").z
             defer = z3.Not(ctx.getf(p, "send_on_connect").z)
+            if outcome[0] == "raise":
+                # only a URL that cannot be encoded (lone surrogate) may raise, and then nothing was written
+                exc = outcome[1]
+                return z3.And(z3.BoolVal(exc.cls is not None and exc_is_subclass(exc.cls, "UnicodeEncodeError")), z3.Not(defer), out == SV(""))
             if _cls == GP:
                 sur = []
                 want = E.enc_term(ctx, z3.Concat(ctx.getf(p, "url").z, CRLF), sur)
